@@ -4,7 +4,7 @@
 # demo passes on the unchanged code, fails with the patch, the baseline suite still passes; then runs the named
 # checks (default: all registered) against the patched scratch tree. Removes the worktree afterwards.
 set -u
-SEED=$1; NAME=$2; shift 2
+SEED=$(readlink -f $1); NAME=$2; shift 2
 PROPS="$@"
 WT=/tmp/confirm/$NAME
 rm -rf $WT; mkdir -p /tmp/confirm
